@@ -136,7 +136,19 @@ theorem rt_datetime (hS : ScalarRT E) {ty} : RTGood E dyn N (.datetime ty) := by
     refine ⟨.str r, by simp only [intoC], rfl, ?_⟩
     simp only [tryC]
     rw [hS.iso_str _ _ _ hc]; rfl
-  | _ => first | (simp [Val.isData] at hv; done) | (simp at ht; done)
+  | _ => first | (simp [Val.isData] at hv; done) | (simp [dtTryTyped, Val.dtKind] at ht; done)
+
+/-- a date/time value (an instance of a user subclass included) is serialised by `isoformat()` -/
+theorem intoC_datetime_iso {ty : String} {v : Val} {r : String} (h : v.dtIso = some r) :
+    intoC E dyn (.datetime ty) v = .ok (.str r) := by
+  cases v with
+  | «opaque» t r' =>
+    simp only [Val.dtIso] at h
+    split at h
+    · cases h; simp only [intoC]
+    · cases h
+  | sub c b => simp only [intoC, h]
+  | _ => simp [Val.dtIso] at h
 
 /-! ## Conditions -/
 
